@@ -152,15 +152,12 @@ def thmStats (cfg : Config) (body : List (List String)) : Nat × Nat × Nat × N
     handler sees New/Undo/Irreversible, all blocks fed in the case form a consistent universe (ids identify blocks,
     heights grow along parent links, also across the root), and every LIB declaration so far resolved to a stored
     ancestor carrying its real number -/
-def consistentCovered (cfg : Config) (body : List (List String)) : Nat :=
+def consistentCovered (cfg : Config) (body : List (List String)) : Nat × Nat :=
   let handlerSees := cfg.matches .new && cfg.matches .undo && cfg.matches .irreversible
-  match cfg.root with
-  | some (.exclusive r) =>
-    let blks := (body.filterMap parseBlkOp).map (·.1)
-    let u := blks.eraseDups
-    let rootOK := u.all (fun b => (!(b.parent == r.id) || decide (r.num < b.num)) && (!(b.id == r.id) || b.num == r.num))
-    if !(handlerSees && r.id != "" && uokB u && rootOK) then 0 else
-    let res := body.foldl (fun (acc : FState × Bool × Nat) ws =>
+  let blks := (body.filterMap parseBlkOp).map (·.1)
+  let u := blks.eraseDups
+  let count : Nat :=
+    (body.foldl (fun (acc : FState × Bool × Nat) ws =>
       let (s, live, n) := acc
       if !live then acc else
       match parseBlkOp ws with
@@ -168,9 +165,15 @@ def consistentCovered (cfg : Config) (body : List (List String)) : Nat :=
       | some (b, failAt) =>
         if !libDeclB s.db b then (s, false, n) else
         let (s', _, res) := processBlock cfg s b failAt
-        (s', res != .errHandler, n + 1)) (init cfg, true, 0)
-    res.2.2
-  | _ => 0
+        (s', res != .errHandler, n + 1)) (init cfg, true, 0)).2.2
+  match cfg.root with
+  | some (.exclusive r) =>
+    let rootOK := u.all (fun b => (!(b.parent == r.id) || decide (r.num < b.num)) && (!(b.id == r.id) || b.num == r.num))
+    if handlerSees && r.id != "" && uokB u && rootOK then (count, 0) else (0, 0)
+  | none =>
+    -- hold-until-LIB discovery (the hub's configuration): `history_discipline_discovery`
+    if handlerSees && cfg.hold && uokB u then (0, count) else (0, 0)
+  | _ => (0, 0)
 
 open BstreamVerif.Consumer in
 def parseObs (ws : List String) : Option Obs :=
@@ -266,6 +269,7 @@ def handle (hdr : List String) (body : List (List String)) : List String :=
       (let (n, sc, ok, cov) := thmStats cfg body
        [s!"note stat thm.steps {n}", s!"note stat thm.steps_in_scope {sc}", s!"note stat thm.steps_all_hypotheses_hold {ok}",
         s!"note stat thm.steps_covered_by_history_theorem {cov}",
-        s!"note stat thm.steps_covered_by_consistent_history_theorem {consistentCovered cfg body}"])
+        s!"note stat thm.steps_covered_by_consistent_history_theorem {(consistentCovered cfg body).1}",
+        s!"note stat thm.steps_covered_by_discovery_history_theorem {(consistentCovered cfg body).2}"])
 
 end BstreamVerif.Drv.ForkableDrv
